@@ -657,11 +657,12 @@ class _Gen:
         if not body and not self.o.get("allow_empty_body", True):
             return []
         explicit = None
-        if self.o.get("explicit_loop_register", True) and self.chance(1, 4):
+        heavy = self.o.get("explicit_loop_heavy", False)  # sessions in which the application names most of its loop registers
+        if self.o.get("explicit_loop_register", True) and (heavy or self.chance(1, 4)):
             # a named register only for outermost loops (nested loops must not share one); "lowest-free" anywhere
             k_free = "free:" + str(self.d(st.integers(0, 15)))
             # (a named register of another bank may share its index with a register an enclosing construct holds)
-            explicit = self.pick(["lowest-free", "lowest-free", "C9", "R12", k_free, k_free]) if depth == 0 else self.pick(["lowest-free", k_free, "C%d" % (depth - 1), "M%d" % (10 + depth)])  # one name per nesting level: nested loops never share a register
+            explicit = self.pick(["lowest-free", "lowest-free", "C9", "R12", k_free, k_free] + ([k_free] * 6 if heavy else [])) if depth == 0 else self.pick(["lowest-free", k_free, "C%d" % (depth - 1), "M%d" % (10 + depth)])  # one name per nesting level: nested loops never share a register
         out = ["loop", style, lid, start, stop, step, body]
         if explicit:
             out.append(explicit)
